@@ -49,6 +49,7 @@ def run(model, res, tier):
     H.safely(res, 'R4', 'r4', _r4, model, res, c, m, f, root)
     H.safely(res, 'R5', 'r5', _r5, model, res, c)
     H.safely(res, 'R6', 'r6', _r6, model, res, c)
+    H.safely(res, 'R6', 'r6 dynamic', _r6_dynamic, model, res, c)
     H.safely(res, 'R8', 'error text', _r8, model, res, c)
     from . import c20
 
@@ -409,6 +410,9 @@ def _r3_table_interp(model, res, c, em, fm, site, singles):
         for (t, alt, subj) in o.notes:
             if ' hits' in t:
                 key = alt
+            elif t.endswith(' is key') and isinstance(subj, tuple) and subj and subj[0] == 'dict-key' and 'X' in repr(subj[1]):
+                # `text in table` / `table[text]`: one decision per key, or none of them
+                key = alt if alt != '<missing>' else '<default>'
             elif isinstance(subj, Atom) and subj.op == 'eq' and len(subj.args) == 2:
                 # a search that compares the known codes one by one with str(argument)
                 cs = [a for a in subj.args if isinstance(a, Const) and isinstance(a.value, str)]
@@ -955,6 +959,200 @@ def _r6(model, res, c):
                           'that return to the same point, so on an input that repeats it and then fails to match, the backtracking '
                           'matcher needs time exponential in the input length - parse() does not return in bounded time' % (pat, w[1]),
                           case=w[1], func=m.qualname_of(node))
+
+
+# ---------------------------------------------------------------------------------------------------
+# R6 (dynamic patterns): a regular expression assembled at run time must not let the text choose the number of unbounded quantifiers
+
+def _unbounded_quantifier(piece):
+    """Does the pattern fragment contain a quantifier without upper bound (*, +, {n,})?"""
+    import re as _re
+    try:
+        import re._parser as sp
+    except ImportError:     # pragma: no cover - older interpreters
+        import sre_parse as sp
+    try:
+        tree = sp.parse(piece)
+    except Exception:
+        return bool(_re.search(r'(?<!\\)(?:[*+]|\{\d+,\})', piece))
+    found = []
+
+    def walk(x):
+        if isinstance(x, sp.SubPattern):
+            for it in x.data:
+                walk(it)
+        elif isinstance(x, tuple):
+            if len(x) == 2 and str(x[0]) in ('MAX_REPEAT', 'MIN_REPEAT', 'POSSESSIVE_REPEAT'):
+                lo, hi, sub = x[1]
+                if hi == sp.MAXREPEAT:
+                    found.append(1)
+                walk(sub)
+            else:
+                for it in x:
+                    walk(it)
+        elif isinstance(x, list):
+            for it in x:
+                walk(it)
+    walk(tree)
+    return bool(found)
+
+
+_SAFE_TRANSLATORS = ('escape', 'translate')        # re.escape(text), fnmatch.translate(pattern)
+
+
+def repeated_quantifier_pieces(f, expr, helpers, rep=False, depth=0, seen=None):
+    """Constant pattern fragments with an unbounded quantifier that reach ``expr`` through a construct that emits them once per
+    character / occurrence of run-time text (a comprehension or loop, ``str.join``, ``str.replace``, a ``re.sub`` replacement, a
+    translation table indexed per character).  Returns [(Constant node, how)]."""
+    seen = set() if seen is None else seen
+    out = []
+    if depth > 8 or expr is None:
+        return out
+
+    def go(e, r, why=None):
+        out.extend(repeated_quantifier_pieces(f, e, helpers, r, depth + 1, seen))
+    if isinstance(expr, ast.Constant):
+        if isinstance(expr.value, str) and rep and _unbounded_quantifier(expr.value):
+            out.append((expr, rep))
+        return out
+    if isinstance(expr, ast.Name):
+        key = (id(f), expr.id, bool(rep))
+        if key in seen or expr.id in sa.params(f):
+            return out
+        seen.add(key)
+        loops = set()
+        for lp in walk_no_defs(f):
+            if isinstance(lp, (ast.For, ast.While)):
+                for x in ast.walk(lp):
+                    loops.add(id(x))
+        for st in walk_no_defs(f):
+            if isinstance(st, ast.Assign) and any(isinstance(t, ast.Name) and t.id == expr.id for t in st.targets):
+                selfref = any(isinstance(x, ast.Name) and x.id == expr.id for x in ast.walk(st.value))
+                go(st.value, rep or ('per loop iteration' if (selfref and id(st) in loops) else False))
+            elif isinstance(st, ast.AugAssign) and isinstance(st.target, ast.Name) and st.target.id == expr.id:
+                go(st.value, rep or ('per loop iteration' if id(st) in loops else False))
+            elif isinstance(st, ast.Call) and isinstance(st.func, ast.Attribute) and isinstance(st.func.value, ast.Name) and \
+                    st.func.value.id == expr.id and st.func.attr in ('append', 'extend', 'insert') and st.args:
+                go(st.args[-1], rep or ('per loop iteration' if id(st) in loops else False))
+        return out
+    if isinstance(expr, (ast.GeneratorExp, ast.ListComp, ast.SetComp)):
+        go(expr.elt, 'per item of a comprehension')
+        return out
+    if isinstance(expr, ast.DictComp):
+        go(expr.value, rep)
+        return out
+    if isinstance(expr, ast.Call):
+        fn = expr.func
+        attr = fn.attr if isinstance(fn, ast.Attribute) else None
+        if attr in _SAFE_TRANSLATORS:
+            return out
+        if attr == 'join' and expr.args:
+            go(fn.value, 'as the separator of a join')
+            go(expr.args[0], rep or 'per item joined')
+            return out
+        if attr == 'replace' and len(expr.args) >= 2:
+            go(fn.value, rep)
+            go(expr.args[1], 'per occurrence replaced')
+            return out
+        if attr in ('sub', 'subn') and expr.args:
+            is_module_call = isinstance(fn.value, ast.Name) and fn.value.id == 're'
+            repl = expr.args[1] if (is_module_call and len(expr.args) > 1) else expr.args[0]
+            subject = expr.args[2] if (is_module_call and len(expr.args) > 2) else (expr.args[1] if len(expr.args) > 1 else None)
+            go(repl, 'per match substituted')
+            go(subject, rep)
+            return out
+        if attr in ('get', 'setdefault', 'pop') and isinstance(fn.value, ast.Name):
+            go(fn.value, rep)
+            for a in expr.args[1:]:
+                go(a, rep)
+            return out
+        if isinstance(fn, ast.Name) and fn.id in helpers and helpers[fn.id] is not f:
+            g = helpers[fn.id]
+            for x in walk_no_defs(g):
+                if isinstance(x, ast.Return) and x.value is not None:
+                    out.extend(repeated_quantifier_pieces(g, x.value, helpers, rep, depth + 1, seen))
+            return out
+        if isinstance(fn, ast.Attribute):
+            go(fn.value, rep)
+        for a in list(expr.args) + [kw.value for kw in expr.keywords]:
+            go(a.value if isinstance(a, ast.Starred) else a, rep)
+        return out
+    if isinstance(expr, ast.Dict):
+        for v in expr.values:
+            go(v, rep)
+        return out
+    if isinstance(expr, ast.Lambda):
+        go(expr.body, rep)
+        return out
+    if isinstance(expr, ast.Subscript):
+        go(expr.value, rep)
+        return out
+    for ch in ast.iter_child_nodes(expr):
+        if isinstance(ch, ast.expr):
+            go(ch, rep)
+    return out
+
+
+_R6_WITNESS = r"""
+def bad(pattern):
+    body = ''.join('.*' if c == '*' else '.' if c == '?' else re.escape(c) for c in pattern)
+    return re.compile('(?s:%s)\\Z' % body)
+
+def bad2(pattern):
+    return re.compile(re.escape(pattern).replace('\\*', '.*') + '$')
+
+def good(pattern):
+    return re.compile(re.escape(pattern) + '.*\\Z')
+
+def good2(pattern):
+    return re.compile(fnmatch.translate(pattern))
+"""
+
+
+def _r6_dynamic(model, res, c):
+    wit = ast.parse(_R6_WITNESS)
+    verdicts = []
+    for g in wit.body:
+        call = [x for x in ast.walk(g) if isinstance(x, ast.Call) and sa.call_name(x) == 're.compile'][0]
+        verdicts.append(bool(repeated_quantifier_pieces(g, call.args[0], {})))
+    if verdicts != [True, True, False, False]:
+        raise AnalysisError('C01.R6 self-check failed: witnesses %r' % (verdicts,))
+    n = 0
+    for m in model.modules.values():
+        helpers = dict((q, g) for q, g in m.functions.items() if '.' not in q)
+        for node in ast.walk(m.tree):
+            if not (isinstance(node, ast.Call) and node.args):
+                continue
+            r = model.resolve_attr_chain(m, node.func) if isinstance(node.func, (ast.Name, ast.Attribute)) else None
+            full = (r[1] + '.' + r[2]) if (r and r[0] == 'extattr') else None
+            if full not in RE_FUNCS:
+                continue
+            a = node.args[0]
+            fdef = m.enclosing_function(node)
+            if isinstance(a, ast.Constant) or fdef is None or not isinstance(fdef, (ast.FunctionDef, ast.AsyncFunctionDef)):
+                continue
+            if isinstance(a, ast.Name):
+                a2 = sa.resolve_local(fdef, a)
+                if isinstance(a2, ast.Name):
+                    rr = model.resolve(m, a2.id)
+                    if rr and rr[0] == 'const':
+                        continue
+                if isinstance(a2, ast.Constant):
+                    continue
+            n += 1
+            pieces = repeated_quantifier_pieces(fdef, a, helpers)
+            key = '%s:%s' % (m.name, m.qualname_of(node))
+            res.ob('R6', key, 'pattern assembled at run time: %s' % src(a)[:80], not pieces,
+                   '; '.join('%r %s' % (p_.value, how) for p_, how in pieces))
+            if pieces:
+                p_, how = pieces[0]
+                res.violation('R6', '%s:input-sized-regex' % key, m.where(node),
+                              'the regular expression %s is assembled from run-time text and receives the unbounded quantifier %r %s: '
+                              'the text decides how many such quantifiers the pattern has, and a backtracking matcher needs time that '
+                              'grows like (length of the subject) ** (number of quantifiers) on a near miss - twenty-five "*" in a criterion '
+                              'against forty characters do not return (fnmatch.translate avoids this; re.escape alone adds no quantifier)'
+                              % (src(a)[:60], p_.value, how), func=m.qualname_of(node))
+    res.analysed['regular expressions assembled at run time'] = n
 
 
 # ---------------------------------------------------------------------------------------------------
